@@ -3,9 +3,22 @@
    lemma of Proofs/GreedyProofs.v or Proofs/KkProofs.v, with
    [Print Assumptions] beneath, and non-vacuity examples. *)
 From Coupe Require Import Lib.Prelude Model.NumPart Model.Greedy Model.Kk
-  Proofs.NumPartLemmas Proofs.GreedyProofs Proofs.KkProofs.
+  Proofs.NumPartLemmas Proofs.GreedyProofs Proofs.KkProofs Gen.GreedyKkGen.
 From Coq Require Import Permutation.
 Open Scope Z_scope.
+
+(* The literals of greedy.rs / kk.rs that the models hard-code, as the
+   translator reads them from the current source (Gen/GreedyKkGen.v): the
+   trivial-partition thresholds, the descending scan, the never-Equal min_by,
+   the differencing push, the `1 - partition[a]` flip, the two reversed
+   pairings, the descending sort of the merged row, the subtraction of its
+   last entry, the back-tracking copy. *)
+Theorem C12_source_literals :
+  (greedy_trivial_below, kk_trivial_parts_below, kk_trivial_len_below, kk_bipart_when, kk_pairs_reversed)
+  = (2, 2, 2, 2, 2)%nat
+  /\ [greedy_scan_descending; greedy_min_by_partial_cmp; kk2_difference; kk2_flip;
+      kk_sort_descending; kk_subtract_last; kk_copy_part] = [true; true; true; true; true; true; true].
+Proof. split; exact eq_refl. Qed.
 
 (* ---------------- Greedy ---------------- *)
 
